@@ -85,6 +85,7 @@ Section IO.
   Section CondIO.
     Variable A : Type.
     Variable arg_to_json : bool -> A -> res pyval.
+    Variable arg_raw : A -> res pyval.          (* the argument as it is (deep-copied) *)
 
     Definition leaf_to_json (l : leaf A) : res pyval :=
       if is_null_leaf l then Ok (VDict []) else
@@ -102,12 +103,26 @@ Section IO.
               | a :: _ => arg_to_json cast_types a
               | [] => Err IndexError
               end
-            else if ((1 <? npk)%nat && negb va && negb kw) || (kw && negb va) then
+            else if (1 <? npk)%nat && negb va && negb kw then
               let* items := (fix go (kws : list (string * A)) : res (list (pyval * pyval)) := match kws with
                                | [] => Ok []
                                | (k', a) :: r => let* x := arg_to_json cast_types a in let* r' := go r in Ok ((VStr k', x) :: r') end)
                               (l_kwargs l) in
               Ok (VDict items)
+            else if kw && negb va then
+              (* the keyword mapping is serialised like any mapping argument: escaped if a name contains "path" *)
+              if existsb (fun ka => str_contains "path" (fst ka)) (l_kwargs l) then
+                let* items := (fix go (kws : list (string * A)) : res (list (pyval * pyval)) := match kws with
+                                 | [] => Ok []
+                                 | (k', a) :: r => let* x := arg_raw a in let* r' := go r in Ok ((VStr k', x) :: r') end)
+                                (l_kwargs l) in
+                Ok (escape_map items)
+              else
+                let* items := (fix go (kws : list (string * A)) : res (list (pyval * pyval)) := match kws with
+                                 | [] => Ok []
+                                 | (k', a) :: r => let* x := arg_to_json cast_types a in let* r' := go r in Ok ((VStr k', x) :: r') end)
+                                (l_kwargs l) in
+                Ok (VDict items)
             else if va && (npk =? 0)%nat && negb kw then
               let* items := mapM (arg_to_json cast_types) (l_args l) in Ok (VList items)
             else Err NotImplementedError in
@@ -129,7 +144,7 @@ Section IO.
   End CondIO.
 
   Definition arg0_to_json (cast_types : bool) (v : pyval) : res pyval := val_to_json cast_types v.
-  Definition cond0_to_json := cond_to_json pyval arg0_to_json.
+  Definition cond0_to_json := cond_to_json pyval arg0_to_json (fun v => Ok v).
 
   (* ---- parts and paths (built objects) ---- *)
 
@@ -226,7 +241,8 @@ Section IO.
     | ALit v => val_to_json cast_types v
     | APath _ pt => let* p := mk_path T id0 pt in path_to_spec p
     end.
-  Definition cond1_to_json := cond_to_json arg1 arg1_to_json.
+  Definition arg1_raw (a : arg1) : res pyval := match a with ALit v => Ok v | APath _ _ => Err OtherExc end.
+  Definition cond1_to_json := cond_to_json arg1 arg1_to_json arg1_raw.
 
   (* ---- rules ---- *)
 
